@@ -3,6 +3,13 @@ Proof gate (Properties/C06.v + Properties/C01_ngram_skip_edge.v) + correspondenc
 Model/K10_Assembly.v with ngram_vectorizer.py / skip_gram_vectorizer.py / edge_list_vectorizer.py + property oracle
 (the counts of the property text computed directly from the raw input, position by position).
 
+'+' is a pure function in the model (Model/K7_AddHistory.v: a history appends to a store), so its purity on the
+implementation is checked here: kind "hist" = a pool of models fitted ONCE and a history of merges / transform calls on
+those shared objects; every result is compared with direct token counts of the concatenated corpora and with
+run_history in Coq, every operand with its state at creation after every merge.  Kinds ngram / skip / edge may carry
+`prefit` (the estimator object was fitted before on other data) and `pretransform` (earlier transform calls): expected
+values are those of a fresh estimator.
+
 `c01_cases_and_check(ctx)` runs the C01 checks (one row per item, fitted width, column indices in range, no exception,
 unseen vocabulary ignored) for the three vectorizers on a transform-focused stream; a future harness/c01.py can call it.
 """
@@ -679,8 +686,13 @@ def oracle(c, r):
         return bad, known
     if "err" in r["train"]:
         return ["fit raised %s: %s" % (r["train"]["err"], r["train"].get("msg"))], []
+    if k == "skip" and r.get("labels") is None:
+        return ["the fitted column_index_dictionary_ is not an enumeration 0 .. n-1 of the columns of the training matrix"], []
     streams = [("train", c["docs"] if k != "edge" else c["edges"]), ("transform", c["X2"])]
-    if "transform_again" in r and r["transform_again"] != r["transform"]:
+    if "fit_then_transform" in r:                       # transform of the training data by the fitted model
+        streams.append(("fit_then_transform", streams[0][1]))
+    core = lambda m: {"err": m["err"]} if isinstance(m, dict) and "err" in m else m
+    if "transform_again" in r and "err" not in r["transform"] and core(r["transform_again"]) != core(r["transform"]):
         bad.append("two transform calls of the same fitted model on the same X' differ: %s then %s"
                    % (str(r["transform"])[:200], str(r["transform_again"])[:200]))
     for key, data in streams:
@@ -880,13 +892,18 @@ def state_diff(before, after):
 
 
 def hist_oracle(c, h):
-    """(message, number of ops of the shortest prefix of the history that shows it) or None"""
+    """(message, number of ops of the shortest prefix of the history that shows it) or None.  A wrong RESULT (a merge
+    that raises, wrong columns / training matrix / transform of a merged model) is reported in preference to the change
+    of an operand's state that caused it; an operand change alone is reported when no result of the history is wrong."""
     n = len(c["pool"])
-    created, k, seen_tf = h["created"], n, {}
+    created, k, seen_tf, changed = h["created"], n, {}, None
     for e in range(n):
         why = hist_expect(c, e, created[e], c["X2"])
         if why:
             return "fitted model s%d: %s" % (e, why), 0
+
+    def because():
+        return "" if changed is None else "  [earlier in this history: %s]" % changed[0]
     for t, (op, st) in enumerate(zip(c["ops"], h["steps"])):
         if op[0] == "transform":
             e = op[1]
@@ -894,7 +911,7 @@ def hist_oracle(c, h):
                 continue
             why = hist_expect(c, e, dict(created[e], train=None, transform=st["out"]), c["X2"])
             if why:
-                return "%s.transform(X2) in step %d: %s" % (hist_name(c, e), t, why), t + 1
+                return "%s.transform(X2) in step %d: %s%s" % (hist_name(c, e), t, why, because()), t + 1
             seen_tf.setdefault(e, st["out"])
             continue
         i, j = op[1], op[2]
@@ -902,28 +919,31 @@ def hist_oracle(c, h):
             k += 1
             continue
         name = "%s = %s + %s (step %d)" % (hist_name(c, k), hist_name(c, i), hist_name(c, j), t)
-        for e, sn in zip((i, j), st["operands"]):
-            d = state_diff(created[e], sn)
-            if d:
-                return "%s changed its %s operand %s: %s" % (name, "left" if e == i else "right", hist_name(c, e), d), t + 1
         if "err" in st:
-            return "%s raised %s: %s" % (name, st["err"], st["msg"]), t + 1
+            return "%s raised %s: %s%s" % (name, st["err"], st["msg"], because()), t + 1
         why = hist_expect(c, k, created[k], c["X2"])
         if why:
-            return "%s: %s" % (name, why), t + 1
+            return "%s: %s%s" % (name, why, because()), t + 1
+        for e, sn in zip((i, j), st["operands"]):
+            d = state_diff(created[e], sn)
+            if d and changed is None:
+                changed = ("%s changed its %s operand %s: %s" % (name, "left" if e == i else "right", hist_name(c, e), d), t + 1)
         k += 1
     for e, f in enumerate(h["final"]):
         if f is None:
             continue
-        d = state_diff(created[e], f)
+        why = hist_expect(c, e, dict(f, label_dict=created[e]["label_dict"], index_dict=created[e]["index_dict"]), c["X2"])
+        if why:
+            return "at the end of the history %s: %s%s" % (hist_name(c, e), why, because()), len(c["ops"])
+        if e in seen_tf and seen_tf[e] != f["transform"]:
+            return "%s.transform(X2) gave %s earlier in the history and %s at its end%s" % (
+                hist_name(c, e), str(seen_tf[e])[:200], str(f["transform"])[:200], because()), len(c["ops"])
+    if changed is not None:
+        return changed
+    for e, f in enumerate(h["final"]):
+        d = state_diff(created[e], f) if f is not None else None
         if d:
             return "at the end of the history %s is not what it was when created: %s" % (hist_name(c, e), d), len(c["ops"])
-        why = hist_expect(c, e, f, c["X2"])
-        if why:
-            return "at the end of the history %s: %s" % (hist_name(c, e), why), len(c["ops"])
-        if e in seen_tf and seen_tf[e] != f["transform"]:
-            return "%s.transform(X2) gave %s earlier in the history and %s at its end" % (
-                hist_name(c, e), str(seen_tf[e])[:200], str(f["transform"])[:200]), len(c["ops"])
     return None
 
 
